@@ -181,6 +181,26 @@ func c10Scenarios() []c10Scenario {
 			}
 			return w
 		}},
+		// the subscription a pull waits on is deleted and a new one is created under
+		// the same name before the woken pull has looked again: the waiter belongs to
+		// the old one (it ends with NotFound) - it must not go back to sleep on a
+		// registration nobody will ever wake
+		{"delete-and-recreate-under-the-waiter", func(e *rig.Env, v int) *c10World {
+			mkTopic(e, T)
+			mkSub(e, &pubsubpb.Subscription{Name: sub(0), Topic: T})
+			if v%2 == 0 {
+				actions.WakeAllInternal()
+			}
+			return &c10World{e: e, waitSubs: []string{sub(0)}, writer: func(ctx context.Context) error {
+				if _, err := e.Sub.DeleteSubscription(ctx, &pubsubpb.DeleteSubscriptionRequest{Subscription: sub(0)}); err != nil {
+					return err
+				}
+				if _, err := e.Sub.CreateSubscription(ctx, &pubsubpb.Subscription{Name: sub(0), Topic: T, EnableMessageOrdering: v%4 >= 2}); err != nil {
+					return err
+				}
+				return pub1(ctx, e, T, "")
+			}}
+		}},
 		{"deadletter-of-ordered-predecessor-by-nack", func(e *rig.Env, v int) *c10World {
 			mkTopic(e, T)
 			mkTopic(e, T2)
@@ -392,6 +412,11 @@ func startWaiter(e *rig.Env, sub string, stream bool, idx int) *c10Waiter {
 		w.mu.Lock()
 		w.err = err
 		w.mu.Unlock()
+		// a stream the server ends (its subscription is gone) has returned, too
+		once.Do(func() {
+			w.at = time.Now()
+			close(w.done)
+		})
 		close(w.hdone)
 	}()
 	w.fs.Push(&pubsubpb.StreamingPullRequest{Subscription: sub, StreamAckDeadlineSeconds: 10, MaxOutstandingMessages: 10})
